@@ -108,6 +108,35 @@ pub fn harness_natives(builder: &mut GlobalsBuilder) {
         Ok(starlark::values::typing::TypeCompiled::new(ty, heap)?.matches(v))
     }
 
+    /// Call `f()`; returns "ok", "err", or "bad:<why>" when the error is not well-formed
+    /// (no span / span outside its file / call stack frame that does not resolve).
+    fn probe<'v>(f: Value<'v>, eval: &mut Evaluator<'v, '_, '_>) -> anyhow::Result<String> {
+        match eval.eval_function(f, &[], &[]) {
+            Ok(_) => Ok("ok".to_owned()),
+            Err(e) => {
+                let j = crate::runner::err_json(&e);
+                if j["span"].is_null() {
+                    return Ok(format!("bad:no-span:{}", j["msg"]));
+                }
+                if j["span_ok"] != true {
+                    return Ok(format!("bad:span:{}", j["span"]));
+                }
+                if j["frames_ok"] != true {
+                    return Ok(format!("bad:frames:{}", j["frames"]));
+                }
+                if j["msg"].as_str().map(|m| m.trim().is_empty()).unwrap_or(true) {
+                    return Ok("bad:empty-message".to_owned());
+                }
+                Ok("err".to_owned())
+            }
+        }
+    }
+
+    /// Module variable by name (None if unset).
+    fn modvar<'v>(name: &str, eval: &mut Evaluator<'v, '_, '_>) -> anyhow::Result<Value<'v>> {
+        Ok(eval.module().get(name).unwrap_or(Value::new_none()))
+    }
+
     /// Total tick count so far.
     fn tick_count(eval: &mut Evaluator) -> anyhow::Result<i32> {
         Ok(eval.get_total_tick_count() as i32)
